@@ -615,6 +615,9 @@ class Decimal(DataType, dtypes.Decimal):
         return dec.quantize(self._exp, context=self._ctx)
 
     def coerce(self, data_container: PandasObject) -> PandasObject:
+        if isinstance(data_container, pd.Index):
+            # an index has no .apply
+            return data_container.map(self.coerce_value)
         return data_container.apply(self.coerce_value)  # type: ignore
 
     def check(  # type: ignore
@@ -1120,7 +1123,11 @@ class Date(_BaseDateTime, dtypes.Date):
 
         def _to_datetime(col: PandasObject) -> PandasObject:
             col = to_datetime_fn(col, **self.to_datetime_kwargs)
-            return col.astype(pandas_dtype).dt.date
+            col = col.astype(pandas_dtype)
+            if isinstance(col, pd.Index):
+                # an index has no .dt accessor
+                return pd.Index(col.date, name=col.name, dtype=object)
+            return col.dt.date
 
         if isinstance(data_container, pd.DataFrame):
             # pd.to_datetime transforms a df input into a series.
